@@ -106,7 +106,16 @@ def _mk_interp(fn, iter_patterns, param, extra_atoms=()):
             return (not res) if negate else res
         return f
 
-    atoms = [('_A != _B', cmp_atom(True)), ('_A == _B', cmp_atom(False))] + list(extra_atoms)
+    def none_atom(negate):
+        def f(e, s, tr):
+            x = e['_X']
+            if isinstance(x, ast.Name) and isinstance(s.get('env', {}).get(x.id), Elem):
+                return negate        # a loop element is a declared name, never None
+            return None
+        return f
+
+    atoms = [('_X is None', none_atom(False)), ('_X is not None', none_atom(True)),
+             ('_A != _B', cmp_atom(True)), ('_A == _B', cmp_atom(False))] + list(extra_atoms)
     effects = [('_N = _V', norm_assign)]
     iters = [(p, f) for p, f in iter_patterns]
     it = absint.Interp(fn, atoms, effects, iters=iters)
